@@ -18,8 +18,10 @@ LEVEL_TEXT = (
     " a declaration table: an unweighted production counts exactly 1.0 and a declared 0 stays 0; (R2) production "
     "weights are stored only by the weight decorator and update_weights, and extract_grammar, interpreted on four"
     " declaration tables, normalises (update_weights(1, <current weights>)) exactly when some class declares a "
-    "weight - a declared weight of 0 counts; (R3) choice_weighted never returns a zero-weight option (C18.R3 "
-    "model on eight weight vectors plus the affine 'draw < total' proof) and the weights are aligned with the "
+    "weight - a declared weight of 0 counts; (R3) the stack mapper, interpreted with a grammar-weight table over "
+    "an abstract symbol, its productions and a base type, hands every candidate type to choice_weighted with the "
+    "grammar's weight of that very candidate; choice_weighted never returns a zero-weight option (C18.R3 model on"
+    " eight weight vectors plus the affine 'draw < total' proof) and the weights are aligned with the "
     "alternatives at every call site (the same filtered / sorted sequence feeds both lists, also when they are "
     "built by one loop appending to both); (R5) every chooser that reaches choice_weighted is interpreted on "
     "three alternatives for declared weights with zeros in every position x minimum-depth tables x recursive sets"
@@ -502,7 +504,8 @@ def rule_r5(ctx: Ctx) -> None:
     from .choosermodel import DIST_TABLES, REC_TABLES
     prog = ctx.prog
     n = 0
-    for f in prog.implementations(DECIDER, "choose_production_alternatives"):
+    from .depthrules import chooser_instances
+    for f in chooser_instances(prog):
         reach = [f] + [g for g in (prog.lookup_method(f.cls, call_name(c)) for c in ast.walk(f.node)
                                    if isinstance(c, ast.Call) and isinstance(c.func, ast.Attribute) and isinstance(c.func.value, ast.Name) and c.func.value.id == "self")
                        if g is not None]
